@@ -219,6 +219,9 @@ func (p *Pool) idOf(sm *specqbft.SignedMessage) int32 {
 	return p.Intern(sm, 0).ID
 }
 
+// IDOf is the pool identity of a message (interning it if needed), -1 for nil.
+func (p *Pool) IDOf(sm *specqbft.SignedMessage) int32 { return p.idOf(sm) }
+
 func (p *Pool) Describe(id int32) string {
 	m := p.List[id].Signed
 	t := [...]string{"proposal", "prepare", "commit", "roundchange"}[m.Message.MsgType]
